@@ -1,8 +1,200 @@
 import Genshi.Wire
+import Genshi.WireCore
+import Genshi.Model.HeapWorld
 namespace Driver.C10
-open Genshi
+open Genshi Genshi.Heap Genshi.Sexp
 
-/-- stub: the model driver for C10 is not built yet -/
-def handle : List Sexp → Option Sexp := fun _ => none
+/-! wire format (see harness/props/c10.py `wire_*`):
+  val    N | T | F | <int> | s<hex> | ( L atom* ) | ( F s<tag> )
+  expr   ( v s<name> ) | ( l val ) | ( eq e e ) | ( not e ) | ( call s<f> ) | ( call s<f> e )
+  ref    ( t n ) | ( p n )
+  ev     ( O <event> ) | ( X expr ) | ( S ref ref ) | ( I t|N ref|N ) | U
+  dir    ( id kind args* )
+  cell   ( E ev* ) | ( D dir* )
+  act    a | ( o ( ( s<key> val )* ) ) | ( n i ) | x | p | r     (atoms must not start with `s`)
+-/
+
+def atom? : Sexp → Option Atom
+  | .atom "N" => some .none
+  | .atom "T" => some (.bool true)
+  | .atom "F" => some (.bool false)
+  | .atom a => a.toInt?.map .int
+  | .str s => some (.str s)
+  | _ => none
+
+def lit? : Sexp → Option Lit
+  | .list (.atom "L" :: xs) => (xs.mapM atom?).map .list
+  | x => (atom? x).map .atom
+
+def val? : Sexp → Option Val
+  | .list [.atom "F", .str t] => some (.opaque t)
+  | x => (lit? x).map Lit.val
+
+partial def expr? : Sexp → Option Expr
+  | .list [.atom "v", .str n] => some (.var n)
+  | .list [.atom "l", v] => (lit? v).map .lit
+  | .list [.atom "call", .str f] => some (.call0 f)
+  | .list [.atom "call", .str f, a] => do let a ← expr? a; pure (.call1 f a)
+  | .list [.atom "eq", a, b] => do let a ← expr? a; let b ← expr? b; pure (.eq a b)
+  | .list [.atom "not", a] => do let a ← expr? a; pure (.not a)
+  | _ => none
+
+def optExpr? : Sexp → Option (Option Expr)
+  | .atom "N" => some none
+  | x => (expr? x).map some
+
+def ref? : Sexp → Option Ref
+  | .list [.atom "t", n] => n.toNat?.map .tmpl
+  | .list [.atom "p", n] => n.toNat?.map .priv
+  | _ => none
+
+def tev? : Sexp → Option TEv
+  | .list [.atom "O", e] => (Event.ofSexp? e).map .out
+  | .list [.atom "X", e] => (expr? e).map .expr
+  | .list [.atom "S", d, b] => do let d ← ref? d; let b ← ref? b; pure (.sub d b)
+  | .atom "U" => some .other
+  | .list [.atom "I", t, fb] => do
+      let t : Option Nat ← (match t with | .atom "N" => some none | x => x.toNat?.map some)
+      let fb : Option Ref ← (match fb with | .atom "N" => some none | x => (ref? x).map some)
+      pure (.incl t fb)
+  | _ => none
+
+def dir? : Sexp → Option Dir
+  | .list (idx :: .atom k :: args) => do
+    let id ← idx.toNat?
+    let kind : DirKind ← match k, args with
+      | "if", [e] => (expr? e).map .pyIf
+      | "for", [.str v, e] => (expr? e).map (.pyFor v)
+      | "with", [.list bs] => do
+          let bs ← bs.mapM fun
+            | .list [.str n, e] => (expr? e).map fun e => (n, e)
+            | _ => none
+          pure (.pyWith bs)
+      | "choose", [e] => (optExpr? e).map .pyChoose
+      | "when", [e] => (optExpr? e).map .pyWhen
+      | "otherwise", [] => some .pyOtherwise
+      | "unwrap", [e] => (optExpr? e).map .pyStrip
+      | "match", [.str n, once] => once.toBool?.map (.pyMatch n)
+      | "def", [.str n, .list ps] => do
+          let ps ← ps.mapM fun
+            | .list [.str pn, d] => (optExpr? d).map fun d => (pn, d)
+            | _ => none
+          pure (.pyDef n ps)
+      | "domain", [.str d] => some (.i18nDomain d)
+      | "comment", [.str c] => some (.i18nComment c)
+      | "ctxt", [.str c] => some (.i18nCtxt c)
+      | "msg", [] => some .i18nMsg
+      | "ichoose", [] => some .i18nChoose
+      | "branch", [] => some .i18nBranch
+      | "other", [] => some .pyOther
+      | _, _ => none
+    pure ⟨id, kind⟩
+  | _ => none
+
+def cell? : Sexp → Option Cell
+  | .list (.atom "E" :: es) => (es.mapM tev?).map .evs
+  | .list (.atom "D" :: ds) => (ds.mapM dir?).map .dirs
+  | _ => none
+
+def frame? : Sexp → Option Frame
+  | .list kvs => kvs.mapM fun
+      | .list [.str k, v] => (val? v).map fun v => (k, v)
+      | _ => none
+  | _ => none
+
+def act? : Sexp → Option Act
+  | .atom "a" => some .access
+  | .atom "x" => some .extract
+  | .atom "p" => some .pickle
+  | .atom "r" => some .register
+  | .list [.atom "o", d] => (frame? d).map .open
+  | .list [.atom "n", i] => i.toNat?.map .step
+  | _ => none
+
+def atomOut : Atom → Sexp
+  | .none => .atom "N"
+  | .bool b => ofBool b
+  | .int n => ofInt n
+  | .str s => .str s
+
+def valOut : Val → Sexp
+  | .atom a => atomOut a
+  | .list xs => .list (.atom "L" :: xs.map atomOut)
+  | .opaque t => .list [.atom "F", .str t]
+  | .macro m => .list [.atom "F", .str m.name]
+  | .gen0 _ => .atom "G"
+  | .gen1 _ _ => .atom "G"
+
+def errName : Err → String
+  | .undefined => "UndefinedError"
+  | .typeError => "TypeError"
+  | .attribute => "AttributeError"
+  | .runtime => "TemplateRuntimeError"
+  | .stopIter => "RuntimeError"
+  | .notFound => "TemplateNotFound"
+  | .unmodelled => "unmodelled"
+  | .fuel => "fuel"
+
+def stepOut : StepOut → Sexp
+  | .ev e => .list [.atom "ev", e.toSexp]
+  | .done => .atom "done"
+  | .err e => .list [.atom "err", .atom (errName e)]
+  | .stopped => .atom "halted"
+
+def ctxOut (c : Ctx) : Sexp :=
+  .list [ .list (c.frames.map fun f => .list (f.map fun (k, v) => .list [.str k, valOut v])),
+          .list (c.choice.map fun ch =>
+            .list [ofBool ch.matched, ofBool ch.hasTest,
+                   match ch.value with | some v => valOut v | none => .atom "N"]),
+          .list (c.mts.map fun mt => .list [.str mt.name, ofBool mt.once]) ]
+
+/-- template cells that differ (the write footprint of an action) -/
+def changed (a b : Heap) : List Nat :=
+  (List.range (max a.length b.length)).filter fun i => a[i]? != b[i]?
+
+/-- `_stream` holds the prepared list / `_prepared`, for every template of the loader -/
+def flags (w : World) : Sexp := .list (w.tmpls.map fun x => .list [ofBool x.streamPrepared, ofBool x.prepared])
+
+/-- renders other than `i` whose private state changed (always empty: the model's shape) -/
+def obsOut (w0 w1 : World) : Obs → Sexp
+  | .unit => .list [.atom "unit", .list ((changed w0.heap w1.heap).map ofNat), flags w1]
+  | .raised e => .list [.atom "raised", .atom (errName e)]
+  | .opened i => .list [.atom "opened", ofNat i, .list ((changed w0.heap w1.heap).map ofNat), flags w1]
+  | .out i o =>
+    .list [.atom "out", ofNat i, stepOut o,
+           (match w1.renders[i]? with | some r => ctxOut r.ctx | none => .atom "N"),
+           .list ((changed w0.heap w1.heap).map ofNat),
+           -- `len(stack)` inside `_flatten`: the suspended iterators (the model's list includes the current one)
+           (match w1.renders[i]? with
+            | some r => (match r.frames.getLast? with | some f => ofNat f.stack.length | none => .atom "N")
+            | none => .atom "N"),
+           flags w1]
+  | .extracted tr e =>
+    .list [.atom "extracted", .list (tr.map ofNat),
+           (match e with | some e => .atom (errName e) | none => .atom "ok"),
+           .list ((changed w0.heap w1.heap).map ofNat), flags w1]
+
+def runAll (v : Variant) (fuel : Nat) : World → List Act → List Sexp
+  | _, [] => []
+  | w, a :: as =>
+    let (w1, o) := exec v fuel w a
+    obsOut w w1 o :: runAll v fuel w1 as
+
+def handle : List Sexp → Option Sexp
+  | [.atom "run", cc, xc, tr, fuel, .list roots, .list cells, .list acts] => do
+      let cc ← cc.toBool?; let xc ← xc.toBool?; let tr ← tr.toBool?; let fuel ← fuel.toNat?
+      let roots ← roots.mapM Sexp.toNat?
+      let image ← cells.mapM cell?
+      let acts ← acts.mapM act?
+      pure (.list (runAll ⟨cc, xc⟩ fuel (World.init image roots tr) acts))
+  | [.atom "race", n, .list sched] => do
+      let n ← n.toNat?
+      let sched ← sched.mapM Sexp.toNat?
+      let s := raceRun (RaceSt.init n) sched
+      pure (.list [ofBool s.streamPrepared, ofBool s.prepared,
+                   .list (s.pcs.map fun pc => .atom (match pc with
+                     | .l455 => "l455" | .l474 => "l474" | .l475 => "l475" | .l475run _ => "l475run" | .l476 => "l476"
+                     | .finished => "finished" | .raised => "raised"))])
+  | _ => none
 
 end Driver.C10
